@@ -280,7 +280,7 @@ func main() {
 			defer wg.Done()
 			// hangs are not shrunk automatically (a shorter watchdog would turn the
 			// criterion into "slow"): their trigger tags come from the structural analysis
-			if res[i].Status == "hang" {
+			if res[i].Status == "hang" || strings.Contains(res[i].Site, "out-of-memory") {
 				return
 			}
 			ms := 0
@@ -369,6 +369,11 @@ func main() {
 		if o.Status != "ok" {
 			ds.Doc = it.doc
 			tags = append(tags, "site="+o.Site)
+			if o.Status == "panic" && len(o.Frames) > 0 {
+				if p := strings.Fields(o.Frames[0]); len(p) == 2 {
+					tags = append(tags, "fn="+p[1]) // function of the panic site: stable when lines shift
+				}
+			}
 			src := it.doc
 			if shrunk[i] != nil {
 				src = shrunk[i]
